@@ -335,6 +335,108 @@ fn staggered_job(pipe: Pipe, len: usize) -> Job {
   })
 }
 
+/// The same question for operators that have no list model (timers, schedulers):
+/// two clones of one built pipeline, subscribed at different points of one hot,
+/// timed history, each compared with a *separately built* pipeline subscribed at
+/// the same moment. Clones of one operator value behave like independently built
+/// operators, also while both are alive and when one of them is unsubscribed.
+fn staggered_diff_job(pipe: Pipe, len: usize) -> Job {
+  Job::new(format!("staggered-diff L{len} {}", pipe.show()), move |ch, obs| {
+    let mut r = Run::prepare(1, Form::Local);
+    let shared: COp = build_clone(&pipe, &r.cx);
+    let (ref1, ref2): (COp, COp) = (build_clone(&pipe, &r.cx), build_clone(&pipe, &r.cx));
+    let (p1, q1, p2, q2) = (Probe::new(), Probe::new(), Probe::new(), Probe::new());
+    let mut u1 = Some(shared.clone().actual_subscribe(p1.clone()));
+    let mut v1 = Some(ref1.actual_subscribe(q1.clone()));
+    let mut ref2 = Some(ref2);
+    r.drain();
+    let join_at = ch.choose(len + 1);
+    ch.label(|| format!("second subscription before step {join_at}"));
+    let mut keep = vec![];
+    let mut hist: Vec<String> = vec![];
+    let mut n = 0i64;
+    for k in 0..=len {
+      if k == join_at {
+        keep.push(shared.clone().actual_subscribe(p2.clone()));
+        keep.push(ref2.take().unwrap().actual_subscribe(q2.clone()));
+        r.drain();
+        hist.push("subscribe-second".into());
+      }
+      if k == len {
+        break;
+      }
+      let mut menu = vec!["next", "tick", "complete", "error"];
+      if u1.is_some() {
+        menu.push("unsubscribe-first");
+      }
+      let act = menu[ch.choose(menu.len())];
+      ch.label(|| act.to_string());
+      hist.push(act.to_string());
+      match act {
+        "next" => {
+          n += 1;
+          r.emit(0, &Note::N(V::I(n)));
+          r.drain();
+        }
+        "tick" => {
+          r.tick();
+        }
+        "complete" => {
+          r.emit(0, &Note::C);
+          r.drain();
+        }
+        "error" => {
+          r.emit(0, &Note::Err(E::E0));
+          r.drain();
+        }
+        _ => {
+          u1.take().unwrap().unsubscribe();
+          v1.take().unwrap().unsubscribe();
+          r.drain();
+        }
+      }
+      obs.checks += 1;
+      for (who, a, b) in [("first", &p1, &q1), ("second", &p2, &q2)] {
+        if a.notes() != b.notes() {
+          obs.fail(
+            format!("c13:dependent-concurrent-subscriptions:{}", sig(&pipe)),
+            format!(
+              "{} after [{}]: the {who} subscription of a clone saw [{}], an independently built pipeline subscribed at the same moment saw [{}]",
+              pipe.show(),
+              hist.join(" "),
+              fmt_notes(&a.notes()),
+              fmt_notes(&b.notes())
+            ),
+          );
+        }
+      }
+      if !obs.viol.is_empty() {
+        break;
+      }
+    }
+    // let everything that is still scheduled run out
+    for _ in 0..4 {
+      r.tick();
+    }
+    for (who, a, b) in [("first", &p1, &q1), ("second", &p2, &q2)] {
+      if obs.viol.is_empty() && a.notes() != b.notes() {
+        obs.fail(
+          format!("c13:dependent-concurrent-subscriptions:{}", sig(&pipe)),
+          format!(
+            "{} after [{}] and four more ticks: the {who} subscription of a clone saw [{}], an independently built one [{}]",
+            pipe.show(),
+            hist.join(" "),
+            fmt_notes(&a.notes()),
+            fmt_notes(&b.notes())
+          ),
+        );
+      }
+    }
+    obs.delivered = (p1.len() + p2.len()) as u64;
+    obs.note_outcome(&(p1.notes(), p2.notes()));
+  })
+}
+
 /// Building a pipeline does not start any clock either: build, let real time
 /// pass, subscribe and drive it; every timer the pipeline asks for is a whole
 /// number of configured ticks (a duration measured against `Instant::now()` from
@@ -416,7 +518,19 @@ pub fn plan(tier: Tier) -> Plan {
     Op1::ObserveOn,
     Op1::SubscribeOn,
   ] {
-    jobs.push(build_gap_job(Pipe::hot(0).o1(op)));
+    jobs.push(build_gap_job(Pipe::hot(0).o1(op.clone())));
+    jobs.push(staggered_diff_job(Pipe::hot(0).o1(op), slen + 1));
+  }
+  for op in [
+    Op1::Finalize,
+    Op1::BoxIt,
+    Op1::Distinct,
+    Op1::Scan,
+    Op1::ThrottleBy(Edge::Leading),
+    Op1::ThrottleBy(Edge::All),
+    Op1::ThrottleBy(Edge::Tailing),
+  ] {
+    jobs.push(staggered_diff_job(Pipe::hot(0).o1(op), slen + 1));
   }
   Plan {
     jobs,
@@ -424,7 +538,7 @@ pub fn plan(tier: Tier) -> Plan {
       prop: "C13".into(),
       tier: tier_name(tier),
       engine: "E1 opseq".into(),
-      rule: "every chain up to the depth bound of cloneable catalogue operators (CloneableBoxOp at every stage, so the operators' own Clone impls are what is exercised) over every cold source and every cold script up to the length bound: built only (all closure / iterator / tap counters must still be 0), then clones 1, 2, 3 subscribed one after the other, then a clone subscribed from inside a callback of another; all traces identical and equal to the list model, counters advance by the same amount per subscription, source closures exactly once; two clones subscribed at different points of one hot history each see what their own events give; a pipeline built 12 ms before it is subscribed asks only for whole periods (no clock starts at construction); non-trivial = something was delivered".into(),
+      rule: "every chain up to the depth bound of cloneable catalogue operators (CloneableBoxOp at every stage, so the operators' own Clone impls are what is exercised) over every cold source and every cold script up to the length bound: built only (all closure / iterator / tap counters must still be 0), then clones 1, 2, 3 subscribed one after the other, then a clone subscribed from inside a callback of another; all traces identical and equal to the list model, counters advance by the same amount per subscription, source closures exactly once; two clones subscribed at different points of one hot history each see what their own events give (operators without a list model: compared with separately built pipelines subscribed at the same moments, through ticks and an unsubscription of the first); a pipeline built 12 ms before it is subscribed asks only for whole periods (no clock starts at construction); non-trivial = something was delivered".into(),
       bounds: json!(bounds),
       assumptions: vec!["share() is shared by design and not part of the independence clause".into()],
     },
